@@ -448,22 +448,26 @@ class RamSession(Session):
                     del self.cache[_id]
                 except KeyError:
                     pass
-                try:
-                    if self.locks[_id].acquire(blocking=False):
-                        lock = self.locks.pop(_id)
-                        lock.release()
-                except KeyError:
-                    pass
+                self._discard_lock(_id)
 
         # added to remove obsolete lock objects
         for _id in list(self.locks):
-            locked = (
-                _id not in self.cache
-                and self.locks[_id].acquire(blocking=False)
-            )
-            if locked:
-                lock = self.locks.pop(_id)
-                lock.release()
+            if _id not in self.cache:
+                self._discard_lock(_id)
+
+    def _discard_lock(self, _id):
+        """Take the lock object of ``_id`` out of the table unless it is held."""
+        lock = self.locks.get(_id)
+        if lock is None or not lock.acquire(blocking=False):
+            return
+        try:
+            # Between the lookup and the acquisition another clean_up() may
+            # have discarded this object and a request may have stored (and
+            # acquired) a new one: only the object held here may go.
+            if self.locks.get(_id) is lock:
+                del self.locks[_id]
+        finally:
+            lock.release()
 
     def _exists(self):
         return self.id in self.cache
